@@ -159,4 +159,18 @@ PROPS = {
         "rule": "call: an unsatisfied error with a converter present, or a function executed.",
         "runs": {"quick": [fam("call", 600, 0, "hopeless")], "thorough": [fam("call", 50000, 0, "hopeless")]},
     },
+    "C08": {
+        "claim": "(theorems pending) Redefine yields a function over exactly the missing, permitted inputs. Tied to the code by replaying the planning run (redefine-mode reachTarget with zero-producing stand-ins) through the model: call graph with filter-gated root edges, requirement order, pop orders, paths and the declared input set are compared; the redefined function is then called and the inner Call is replayed as an ordinary call with the extra values.",
+        "note": "premise of the property: single-input converters, no subtypes, one type per name (the generator respects it).",
+        "theorems": [], "facts": {"r5SkipSame": "true", "r6NameTest": "true", "publishAfterUpdate": "true", "trackReaching": "true", "takeValuedNamed": "true", "memoCopy": "true", "r8SkipSupplied": "true", "skipRecordsInput": "false"},
+        "rule": "redef: any planning run; call: at least one function executed.",
+        "runs": {"quick": [fam("redef", 500, 0)], "thorough": [fam("redef", 40000, 0)]},
+    },
+    "C09": {
+        "claim": "(theorems pending) Redefine is pure planning: no user function body runs during Redefine and no function object is disturbed. Tied to the code by execution counters around every Redefine and by histories interleaving Redefine and Call on shared function objects, replayed through the model with the memo cells threaded.",
+        "note": "converter generators (user code run while the graph is built) are outside the statement.",
+        "theorems": [], "facts": {"r5SkipSame": "true", "r6NameTest": "true", "publishAfterUpdate": "true", "trackReaching": "true", "takeValuedNamed": "true", "memoCopy": "true", "r8SkipSupplied": "true", "skipRecordsInput": "false"},
+        "rule": "redef: any planning run.",
+        "runs": {"quick": [fam("redef", 400, 0)], "thorough": [fam("redef", 30000, 0)]},
+    },
 }
